@@ -9,6 +9,7 @@ import (
 
 	ingestclient "github.com/ipni/go-libipni/ingest/client"
 	"github.com/ipni/go-libipni/ingest/model"
+	"github.com/libp2p/go-libp2p/core/crypto"
 	"github.com/libp2p/go-libp2p/core/peer"
 	"github.com/libp2p/go-libp2p/core/record"
 	"github.com/multiformats/go-multihash"
@@ -273,7 +274,112 @@ func runC18(r *simkit.Run, c Cfg) {
 	r.Advance(1)
 }
 
+// yieldKey is a signing key that takes a while: the scheduler decides what
+// else runs while a request is being signed (a key in an HSM or a remote
+// signer behaves like this).
+type yieldKey struct {
+	crypto.PrivKey
+	r *simkit.Run
+}
+
+func (k yieldKey) Sign(data []byte) ([]byte, error) {
+	who := k.r.TaskOf(simkit.CurGID())
+	k.r.ParkHook("key.sign", who, nil)
+	sig, err := k.PrivKey.Sign(data)
+	k.r.ParkHook("key.signed", who, nil)
+	return sig, err
+}
+
+// C18K: the constructors used by several callers at once. Two to four tasks
+// build requests with slow keys; the scheduler interleaves them inside the
+// signing step. Every request built must be accepted by the reader and
+// return the fields it was built from.
+func runC18K(r *simkit.Run, c Cfg) {
+	tp := r.Tape
+	r.InstallHooks(simkit.NewNamer())
+	type built struct {
+		q    c18Req
+		data []byte
+		err  error
+	}
+	var all []*built
+	nt := tp.Range(2, 4, "builders")
+	for i := 0; i < nt; i++ {
+		name := fmt.Sprintf("builder%d", i+1)
+		n := tp.Range(1, 3, "nreq")
+		var qs []c18Req
+		for k := 0; k < n; k++ {
+			q := c18Req{ingest: tp.Chance(2, 3, "ingest"), named: KeyedIdentity(KeyTypes[tp.Choose(len(KeyTypes), "key")], 1+tp.Choose(2, "who"), "V")}
+			q.signer = q.named
+			q.mh = must(multihash.Sum(tp.Bytes(8, "content"), multihash.SHA2_256, -1))
+			q.ctxID = tp.Bytes(tp.Choose(65, "ctxlen"), "ctx")
+			q.metadata = tp.Bytes(tp.Choose(200, "mdlen"), "md")
+			na := 1 + tp.Choose(3, "naddr")
+			for i := 0; i < na; i++ {
+				q.addrs = append(q.addrs, c09Addrs[tp.Choose(5, "addr")].s)
+			}
+			qs = append(qs, q)
+		}
+		r.Go(name, func(t *simkit.Task) {
+			for _, q := range qs {
+				t.Yield("op")
+				b := &built{q: q}
+				key := yieldKey{PrivKey: q.signer.Priv, r: r}
+				if q.ingest {
+					b.data, b.err = model.MakeIngestRequest(q.named.ID, key, q.mh, q.ctxID, q.metadata, q.addrs)
+				} else {
+					b.data, b.err = model.MakeRegisterRequest(q.named.ID, key, q.addrs)
+				}
+				all = append(all, b)
+				t.Logf("built %s request (%d bytes, err=%v)", kindName(q.ingest), len(b.data), b.err)
+			}
+		})
+	}
+	out := r.Loop(simkit.LoopCfg{MaxSteps: 4000})
+	if out != "done" && out != "failed" {
+		r.Violate("c18.liveness", "constructors did not return (%s)", out)
+	}
+	overl := 0
+	for _, b := range all {
+		q := b.q
+		if b.err != nil {
+			r.Violate("c18.rejected", "constructor of a %s request failed: %v", kindName(q.ingest), b.err)
+			continue
+		}
+		if q.ingest {
+			g, err := model.ReadIngestRequest(b.data)
+			if err != nil {
+				r.Violate("c18.rejected", "ingest request built by the library with the provider's own %s key, while other requests were being built, was rejected: %v", q.named.Priv.Type(), err)
+				continue
+			}
+			if g.ProviderID != q.named.ID || !bytes.Equal(g.Multihash, q.mh) || !sameBytes(g.ContextID, q.ctxID) || !sameBytes(g.Metadata, q.metadata) || !eqStrs(g.Addrs, q.addrs) {
+				r.Violate("c18.accepted", "ingest request built while other requests were being built reads back with other fields than it was built from")
+			}
+		} else {
+			g, err := model.ReadRegisterRequest(b.data)
+			if err != nil {
+				r.Violate("c18.rejected", "register request built by the library with the provider's own %s key, while other requests were being built, was rejected: %v", q.named.Priv.Type(), err)
+				continue
+			}
+			var as []string
+			for _, a := range g.Addrs {
+				as = append(as, a.String())
+			}
+			if g.PeerID != q.named.ID || !eqStrs(as, q.addrs) {
+				r.Violate("c18.accepted", "register request built while other requests were being built reads back with other fields than it was built from")
+			}
+		}
+		overl++
+	}
+	r.Probe("concurrent-constructors")
+	r.NoteEnabled(2)
+	r.State(fmt.Sprintf("builders=%d built=%d", nt, overl))
+	r.MarkEnd()
+	r.Advance(1)
+}
+
 func init() {
+	Register(&Scenario{Name: "C18K", Property: "C18", Run: runC18K})
 	Register(&Scenario{Name: "C18", Property: "C18", Run: runC18, Cases: c18Cases,
 		Describe: func(c int) string {
 			return fmt.Sprintf("%s request, %s key: every byte position of the sealed envelope flipped, truncations, replay, foreign signers", kindName(c%2 == 0), KeyTypes[c/2])
